@@ -84,7 +84,7 @@ Theorem c01_emitted_unit_fields : forall prev dts,
   /\ s_nonsync (emit_of prev dts) = s_nonsync prev /\ s_ntp (emit_of prev dts) = s_ntp prev
   /\ s_pay (emit_of prev dts) = s_pay prev /\ s_size (emit_of prev dts) = s_size prev
   /\ s_dur (emit_of prev dts) = u32 (dts - s_dts prev).
-Proof. intros prev dts. repeat split. Qed.
+Proof. exact emit_fields. Qed.
 Print Assumptions c01_emitted_unit_fields.
 
 Theorem c01_video_write_log : forall m ti t a m',
@@ -97,7 +97,7 @@ Print Assumptions c01_video_write_log.
 Theorem c01_no_rotation_changes_a_log : forall m d ntp f, LI m ->
   (LI (rotateSegments m d ntp f) /\ forall j, slog (rotateSegments m d ntp f) j = slog m j)
   /\ (LI (rotateParts m d) /\ forall j, slog (rotateParts m d) j = slog m j).
-Proof. intros m d ntp f HL. split; [apply SameLogs_rotateSegments|apply SameLogs_rotateParts]; exact HL. Qed.
+Proof. exact rotations_keep_logs. Qed.
 Print Assumptions c01_no_rotation_changes_a_log.
 
 Theorem c01_log_only_grows : forall c m0 ops1 ops2,
@@ -108,30 +108,13 @@ Print Assumptions c01_log_only_grows.
 
 Theorem c01_structure_reachable : forall c m0 ops,
   start c = Ok m0 -> c_variant c <> MPEGTS -> LI (mux_run m0 ops) /\ forall j, slog m0 j = [].
-Proof.
-  intros c m0 ops Hs Hv. destruct (start_LI c m0 Hs Hv) as [HL H0]. split; [now apply LI_mux_run|exact H0].
-Qed.
+Proof. exact structure_reachable. Qed.
 Print Assumptions c01_structure_reachable.
 
 (* non-vacuity: a concrete Low-Latency muxer (H264 + AAC) and four successful writes after which the
    video stream's log holds the first two written units, in order, with their durations *)
-Definition ex_cfg : cfg :=
-  {| c_variant := LL;
-     c_tracks := [ {| t_kind := H264; t_rate := 90000; t_srate := 0; t_name := 0; t_lang := 0; t_default := false; t_params0 := 1 |};
-                   {| t_kind := AAC; t_rate := 48000; t_srate := 48000; t_name := 0; t_lang := 0; t_default := false; t_params0 := 2 |} ];
-     c_segcount := 7; c_segmin := 1000000000; c_partmin := 200000000; c_segmax := 50000000 |}.
-Definition ex_au (dts : Z) (ra : bool) (id : Z) : au :=
-  {| a_pts := dts; a_dts := dts; a_ntp := 1700000000000000000 + dts * 11111; a_ra := ra; a_nonidr := negb ra;
-     a_params := None; a_units := [(id, 100, 100, 0)] |}.
-Definition ex_ops : list wop :=
-  [WWrite 0 (ex_au 0 true 11); WWrite 0 (ex_au 3000 false 12); WWrite 1 (ex_au 0 true 21); WWrite 0 (ex_au 6000 false 13)].
-
-Example c01_example : exists m0,
+Theorem c01_example_nonvacuous : exists m0,
   start ex_cfg = Ok m0 /\ c_variant ex_cfg <> MPEGTS /\ all_ok m0 ex_ops
   /\ map (fun s => (s_pay s, s_dts s, s_dur s)) (slog (mux_run m0 ex_ops) 0) = [(11, 900000, 3000); (12, 903000, 3000)].
-Proof.
-  destruct (start ex_cfg) as [m0| |] eqn:E; [|vm_compute in E; discriminate|vm_compute in E; discriminate].
-  exists m0. split; [reflexivity|]. split; [discriminate|].
-  vm_compute in E. injection E as <-. split; vm_compute; auto.
-Qed.
-Print Assumptions c01_example.
+Proof. exact log_example. Qed.
+Print Assumptions c01_example_nonvacuous.
